@@ -320,8 +320,15 @@ def audit_graph(obj, pol, out, seen=None, path="result"):
         mod = getattr(obj, "__module__", None)
         if mod is None and isinstance(getattr(obj, "__self__", None), types.ModuleType):
             mod = obj.__self__.__name__
-        if mod is None or not pol.module_ok(mod):
-            out.append("%s: function %r of module %r returned, module not allowed" % (path, getattr(obj, "__qualname__", obj), mod))
+        if mod is not None and pol.module_ok(mod):
+            return
+        # a function that an allowed module publishes under a global name (os.system is posix.system)
+        # was resolved in the allowed module: the property does not forbid that
+        for mname in pol.modules:
+            m = sys.modules.get(mname)
+            if m is not None and any(v is obj for v in list(vars(m).values())):
+                return
+        out.append("%s: function %r of module %r returned, module not allowed" % (path, getattr(obj, "__qualname__", obj), mod))
         return
     if isinstance(obj, types.MethodType):
         audit_graph(obj.__self__, pol, out, seen, path + ".__self__")
